@@ -39,6 +39,8 @@ def model_eval(exprs, imports=IMPORTS, defs="", tag="lit", shard=300):
 
 def build_driver():
     import os
+    if os.environ.get("LIT_NO_DRIVER"):      # development switch: exercise the runs without the extracted model
+        raise RuntimeError("LIT_NO_DRIVER set")
     ok, log = vlib.coq_build(["Lit/Extract.vo"])
     if not ok:
         raise RuntimeError("extraction failed: " + log[-2000:])
@@ -171,6 +173,23 @@ def lex_class(msg):
     if "codec can't decode" in msg or "invalid \\x escape" in msg or "Trailing \\ in string" in msg:
         return "decode"
     return "other:" + msg[:60]
+
+
+def read_all(hy, src, reader=None):
+    """every form of src read through hy.read_many (optionally on a given HyReader), or the error that ended it:
+    ('ok', [(type name, repr)...]) / ('lex', class) / ('premature',) / ('other', exception name)"""
+    from hy.reader.exceptions import LexException, PrematureEndOfInput
+    try:
+        with warnings.catch_warnings():
+            warnings.simplefilter("ignore")
+            ms = list(hy.read_many(src, reader=reader))
+    except PrematureEndOfInput:
+        return ("premature",)
+    except LexException as e:
+        return ("lex", lex_class(e.msg if hasattr(e, "msg") else str(e)))
+    except BaseException as e:
+        return ("other", type(e).__name__)
+    return ("ok", [(type(m).__name__, repr(m)) for m in ms])
 
 
 def read_first(hy, src):
